@@ -17,6 +17,7 @@ type c9CorpusTrack struct {
 	step       int64 // ticks
 	gop        int   // video: frames per GOP after the first
 	burst      int   // audio: units written together, late (1 = regular)
+	aus        int   // AAC: access units per WriteMPEG4Audio call (0/1 = one); the step is then per AU (1024 ticks)
 }
 
 func c9BuildCase(variant string, segMinNs, partMinNs int64, segCount int, tracks []c9CorpusTrack, baseSec float64, preMs, spanMs int,
@@ -70,7 +71,7 @@ func c9BuildCase(variant string, segMinNs, partMinNs int64, segCount int, tracks
 			if skip < 0 && now >= preEnd-1e-9 && (best == lead || !hasVideo) && sts[best].count > 0 {
 				skip = len(ws)
 			}
-			ntp := int64(1600000000000) + int64((now-baseSec)*1000)
+			ntp := int64(1600000000000) + c9FloorDiv(pts*1000, int64(t.rate)) - int64(baseSec*1000)
 			pay++
 			if isVideoCodec(t.codec) {
 				ra := false
@@ -92,12 +93,22 @@ func c9BuildCase(variant string, segMinNs, partMinNs int64, segCount int, tracks
 				ws = append(ws, fmt.Sprintf("w t=%d pts=%d dts=%d ntp=%d ra=%s pic=1 par=%d pays=%d sizes=%d fill=2", best, pts, pts, ntp, b01(ra), par, pay, size))
 				sts[best].next += t.step
 			} else {
-				op := fmt.Sprintf("w t=%d pts=%d dts=%d ntp=%d ra=1 pic=1 par=0 pays=%d sizes=%d fill=2", best, pts, pts, ntp, pay, 7)
+				nAU := 1
+				if t.aus > 1 && sts[best].count > 0 {
+					nAU = t.aus
+				}
+				pays, sizes := fmt.Sprint(pay), "7"
+				for k := 1; k < nAU; k++ {
+					pay++
+					pays += fmt.Sprintf(",%d", pay)
+					sizes += ",7"
+				}
+				op := fmt.Sprintf("w t=%d pts=%d dts=%d ntp=%d ra=1 pic=1 par=0 pays=%s sizes=%s fill=2", best, pts, pts, ntp, pays, sizes)
 				if t.codec == "opus" {
 					op = fmt.Sprintf("w t=%d pts=%d dts=%d ntp=%d ra=1 pic=1 par=0 pays=%d sizes=%d fill=2 durs=120 tocs=128", best, pts, pts, ntp, pay, 8)
 				}
 				ws = append(ws, op)
-				step := t.step
+				step := t.step * int64(nAU)
 				if !hasVideo && sts[best].count == 0 {
 					step += int64(float64(preMs) / 1000 * float64(t.rate))
 				}
@@ -114,8 +125,8 @@ func c9BuildCase(variant string, segMinNs, partMinNs int64, segCount int, tracks
 	for _, a := range at {
 		ats = append(ats, fmt.Sprint(a))
 	}
-	ops := []string{fmt.Sprintf("start v=%s segcount=%d segmin=%d partmin=%d maxsize=%d dir=0 cl=%d at=%s pl=%s skip=%d",
-		variant, segCount, segMinNs, partMinNs, 50*1024*1024, len(at), strings.Join(ats, ","), strings.Join(pl, ","), skip)}
+	ops := []string{fmt.Sprintf("start v=%s segcount=%d segmin=%d partmin=%d maxsize=%d dir=0 cl=%d at=%s pl=%s ad=%s skip=%d",
+		variant, segCount, segMinNs, partMinNs, 50*1024*1024, len(at), strings.Join(ats, ","), strings.Join(pl, ","), strings.TrimSuffix(strings.Repeat("500,", len(at)), ","), skip)}
 	for _, t := range tracks {
 		nm, lg := t.name, t.lang
 		if nm == "" {
@@ -167,5 +178,10 @@ func c9Corpus() [][]string {
 	out = append(out, c9BuildCase("ts", 10000000, 0, 5, a0, -0.75, 520, 300, func(skip, n int) ([]int, []string) {
 		return []int{skip + (n-skip)*6/10}, []string{"mv"}
 	}))
+	// 6. audio-led fMP4 / LL, AAC 96 kHz, THREE AUs per WriteMPEG4Audio call, segments of four AUs: two of three segments
+	// are cut on an AU inside a call, its date-time is the per-AU NTP (ntp + i*1024/sampleRate)
+	led := []c9CorpusTrack{{codec: "aac", rate: 96000, sr: 96000, name: "main", lang: "en", step: 1024, aus: 3}}
+	out = append(out, c9BuildCase("fmp4", 42665000, 0, 6, led, 7, 520, 600, mid("mv", "s0")))
+	out = append(out, c9BuildCase("ll", 42665000, 4000000, 7, led, 7, 520, 600, mid("mv")))
 	return out
 }
